@@ -251,6 +251,13 @@ class RequestsConnectTimeout(RequestsConnectionError):
     pass
 
 
+ERRHDR_KEYS = {"errhdr:": "x-lunar-error", "errHDR:": "X-Lunar-Error", "ERRHDR:": "X-LUNAR-ERROR"}
+
+
+def gw_word_ok(g):
+    return g in ("ok", "connerr", "connsub", "errhdr", "appexc") or (g[:7] in ERRHDR_KEYS and len(g) > 7)
+
+
 class Session:
     """Scripted transport: `request` is what the hook captures as `_original_function`."""
 
@@ -272,6 +279,8 @@ class Session:
                 raise RequestsConnectTimeout("connect timeout")
             if g == "errhdr":
                 return Response("gw", {"x-lunar-error": "2"})
+            if g[:7] in ERRHDR_KEYS:
+                return Response("gw", {ERRHDR_KEYS[g[:7]]: dec(g[7:])})
             raise AppGw("application exception on the gateway leg")
         self.legs.append("direct")
         if self.direct == "ok":
@@ -506,7 +515,7 @@ def exec_case(ops, out):
                 outs.append("ok")
             elif k == "call":
                 host, hd, gw, di = kv(w, "host"), kv(w, "hdr"), kv(w, "gw"), kv(w, "direct")
-                if ic is None or None in (host, hd, gw, di) or gw not in ("ok", "connerr", "connsub", "errhdr", "appexc") \
+                if ic is None or None in (host, hd, gw, di) or not gw_word_ok(gw) \
                         or di not in ("ok", "exc"):
                     outs.append("bad-op")
                     continue
@@ -534,7 +543,9 @@ def exec_case(ops, out):
                     tripped = True
                 if s.legs == ["direct"] and ic.fs._state_ok:
                     excluded = True
-                out.count("gw-" + gw if "gw" in s.legs else "not-routed")
+                out.count("gw-" + gw.split(":")[0] if "gw" in s.legs else "not-routed")
+                if "gw" in s.legs and gw[:7] in ERRHDR_KEYS:
+                    out.count("gw-errhdr-value-" + gw[7:])
                 out.count("result-" + res)
             elif k == "decide":
                 host, hd = kv(w, "host"), kv(w, "hdr")
@@ -607,6 +618,33 @@ NOT_IPV6 = ["1:2:3:4:5:6:7:8:9", ":1", "1:", ":::", "1::2::3", "12345::", "g::1"
 NUMERIC_NAMES = {"127.1": "127.0.0.1", "2130706433": "127.0.0.1", "0x7f.1": "127.0.0.1", "010.0.0.1": "8.0.0.1",
                  "10.1": "10.0.0.1", "0": "0.0.0.0", "192.168.257": "192.168.1.1", "1.2.3": "1.2.0.3", "0300.0250.1": "192.168.0.1"}
 UNRESOLVABLE = ["1.2.3.4.5", "256.1.1.1", "nosuch.example.test", "None", "a b", "1.2.3.4."]
+def gateway_error_codes():
+    """Every x-lunar-error value the gateway itself can emit (read from its haproxy.cfg), else the known list."""
+    codes = []
+    try:
+        import re
+        with open(os.path.join(REPO, "proxy/rootfs/etc/haproxy/haproxy.cfg")) as f:
+            for m in re.finditer(r"hdr\s+x-lunar-error\s+(\S+)", f.read()):
+                if m.group(1) not in codes:
+                    codes.append(m.group(1))
+    except OSError:
+        pass
+    for c in ("1", "2", "3", "4", "5", "10"):
+        if c not in codes:
+            codes.append(c)
+    return sorted(codes, key=lambda c: (len(c), c))
+
+
+# values outside the gateway's own table: unknown numeric, non-numeric, empty, padded, zero
+ODD_ERROR_VALUES = ["77", "0", "abc", "", " 2", "2 ", "-1", "10.0"]
+
+
+def errhdr_words():
+    ws = ["errhdr:" + enc(c) for c in gateway_error_codes()] + ["errhdr:" + enc(v) for v in ODD_ERROR_VALUES]
+    ws += ["errHDR:10", "ERRHDR:2", "errHDR:77", "ERRHDR:%e"]
+    return ws
+
+
 RESOLVER_FAULTS = ["oserror:emfile", "oserror:enomem", "herror", "timeout"]
 UNICODE_NAMES = ["a" * 64 + ".example.test", "a..b", ".example.test", "x." + "b" * 70]
 NAMES = ["api.example.test", "internal.example.test", "db", "localhost", "svc-1.example.test", "a-b", "ab", "x_y.example.test",
@@ -617,6 +655,9 @@ HDRS = ["-", "-", "-", "other", "v:true", "v:false", "v:True", "v:%e", "v:1", "K
 
 def q(name, ops):
     return name, ops
+
+
+HDR_EVENTS = {"0": "errhdr:10", "1": "errhdr:77", "2": "errhdr:abc", "3": "errhdr:%e", "4": "errHDR:10", "5": "ERRHDR:3"}
 
 
 def seq_case(cid, maxe, cool, events, extra_cfg=""):
@@ -631,6 +672,8 @@ def seq_case(cid, maxe, cool, events, extra_cfg=""):
             ops.append("call host=%s hdr=- gw=connerr direct=ok" % PUBLIC)
         elif e == "H":
             ops.append("call host=%s hdr=- gw=errhdr direct=ok" % PUBLIC)
+        elif e in HDR_EVENTS:   # x-lunar-error with one specific value / key spelling
+            ops.append("call host=%s hdr=- gw=%s direct=ok" % (PUBLIC, HDR_EVENTS[e]))
         elif e == "A":
             ops.append("call host=%s hdr=- gw=appexc direct=ok" % PUBLIC)
         elif e == "B":
@@ -726,7 +769,7 @@ def host_case(r, cid):
         if r.chance(25):   # the filter alone (shares the cache with the calls)
             ops.append("decide host=%s hdr=%s" % (enc(h), r.pick(HDRS)))
         else:
-            ops.append("call host=%s hdr=%s gw=%s direct=%s" % (enc(h), r.pick(HDRS), r.pick(["ok", "ok", "ok", "errhdr", "connerr", "appexc"]),
+            ops.append("call host=%s hdr=%s gw=%s direct=%s" % (enc(h), r.pick(HDRS), r.pick(["ok", "ok", "ok", "errhdr", "connerr", "appexc", r.pick(ERRHDR_WORDS)]),
                                                                   r.pick(["ok", "ok", "ok", "exc"])))
         if r.chance(10):
             ops.append("adv d=%d" % r.pick([1, 7, 8, 9, 40, 80]))
@@ -738,7 +781,7 @@ def rand_seq_case(r, cid):
     cool = r.pick([1, 2, 3, 4, 5, 1, 2, 3, 4, 5, 0])
     n = r.range(1, 12)
     # failure-heavy so that the breaker really opens, with advances around the boundary
-    letters = "SEEHHCABTTtUXY6ONRrD"
+    letters = "SEEHHCABTTtUXY6ONRrD012345"
     ev = [letters[r.intn(len(letters))] for _ in range(n)]
     return seq_case(cid, maxe, cool, ev)
 
@@ -771,8 +814,12 @@ def enum_seqs(alphabet, maxlen):
     return seqs[1:]
 
 
+ERRHDR_WORDS = []
+
+
 def generate(r, tier, budget, emit):
     n = 0
+    ERRHDR_WORDS[:] = errhdr_words()
 
     def nid(p):
         nonlocal n
@@ -786,6 +833,12 @@ def generate(r, tier, budget, emit):
         emit(*host_case(r.fork(), nid("h")))
     for _ in range(4 * budget):
         emit(*probe_case(r.fork(), nid("p"), 400 if tier == "quick" else 3000))
+    for w in ERRHDR_WORDS:
+        for maxe in (1, 2, 3):
+            ops = ["cfg max=%d cool=2 block=%%n allow=%%n t0=%d" % (maxe, T0), "dns %s ip:%s" % (PUBLIC, PUBLIC_IP)]
+            ops += ["call host=%s hdr=- gw=%s direct=ok" % (PUBLIC, w)] * maxe
+            ops += ["call host=%s hdr=- gw=ok direct=ok" % PUBLIC, "adv d=16", "call host=%s hdr=- gw=ok direct=ok" % PUBLIC]
+            emit(nid("x"), ops)
     six = "SEHABT"   # success, gw error by exception, by header, application exception, bypassed destination, clock advance
     if tier == "quick":
         # exhaustive up to length 4 for the 16 settings
